@@ -39,6 +39,9 @@ def draw(rng, wire_len: int, hot=(), allow_empty: bool = True, max_list: int = 4
     spec = _draw(rng, wire_len, hot, allow_empty, max_list)
     if rng.random() < 0.08:
         spec["as"] = "bytearray"
+    if spec["m"] != "whole" and rng.random() < 0.07:
+        # the sender / the event loop stalls before some deliveries (simulated process clock, reader_rig.ProcessClock)
+        spec["gaps"] = [[rng.randrange(0, 400), rng.choice([0.3, 1.5, 1.5, 5.0, 61.0, 3600.0, 172800.0])] for _ in range(rng.choice([1, 1, 2, 4]))]
     return spec
 
 
